@@ -3,22 +3,17 @@ From Coq Require Import List Arith Bool Lia.
 Import ListNotations.
 From YV Require Import gen.Gen_ready_c13 model.Await proofs.AwaitProofs proofs.AwaitSteps.
 
-Section Reach.
-Variables (os : list ospec) (cs : list cspec) (nx : nat) (tr : list ev) (s : st).
-Hypothesis Hrun : run (init os cs nx) tr = Some s.
-Variables (c : nat) (co : coro).
-Hypothesis Hco : nth_error (cos s) c = Some co.
-
-Let I : Inv s := inv_reach os cs nx tr s Hrun.
-Let K : co_ok s c co := inv_co s c co I Hco.
+Ltac reach_setup Hrun Hco :=
+  let I := fresh "I" in let K := fresh "K" in
+  pose proof (inv_reach _ _ _ _ _ Hrun) as I; pose proof (inv_co _ _ _ I Hco) as K.
 
 (* exactly once, and only after everything awaited is complete *)
-Lemma resume_once_after :
+Lemma resume_once_after os cs nx tr s (Hrun : run (init os cs nx) tr = Some s) c co (Hco : nth_error (cos s) c = Some co) :
   map rk (resumes co) = seq 0 (pc co) /\
   Forall (fun r => rok r = true /\ rlive r = true) (resumes co) /\
   forall r a, In r (resumes co) -> nth_error (prog co) (rk r) = Some a ->
               forall o, In o (aobjs a) -> ocomplete (objs s) o = true.
-Proof.
+Proof. reach_setup Hrun Hco.
   destruct K as (_ & _ & _ & _ & ((E1 & _) & E2 & _) & _). split; auto. split.
   - eapply Forall_impl; [|exact E2]. intros r (R1 & R2 & _). auto.
   - intros r a Hi Ha o Ho. rewrite Forall_forall in E2. destruct (E2 r Hi) as (_ & _ & R3).
@@ -35,12 +30,12 @@ Qed.
 
 (* never lost: a suspended coroutine still has a callback in (or being fired from) an object it awaits;
    a submitted one is in that executor's queue *)
-Lemma never_lost :
+Lemma never_lost os cs nx tr s (Hrun : run (init os cs nx) tr = Some s) c co (Hco : nth_error (cos s) c = Some co) :
   (cst co = AWait ->
    exists a o ob, capt co = Some a /\ In o (aobjs a) /\ nth_error (objs s) o = Some ob /\
                   match ow ob with WStack l => In c l | WRes => In c (opend ob) end) /\
   (forall x, cst co = AQueued x -> exists q, nth_error (qs s) x = Some q /\ In c q).
-Proof.
+Proof. reach_setup Hrun Hco.
   destruct K as (B & _ & (D1 & D2) & _ & _ & _ & _ & R). split.
   - intros Hs. unfold B_ok in B. destruct (capt co) as [a|] eqn:Ha.
     + rewrite Hs in B. destruct B as [_ B].
@@ -58,11 +53,11 @@ Proof.
 Qed.
 
 (* when nothing is in flight a coroutine that is still suspended awaits something that has not been fulfilled *)
-Lemma quiescent_waits :
+Lemma quiescent_waits os cs nx tr s (Hrun : run (init os cs nx) tr = Some s) c co (Hco : nth_error (cos s) c = Some co) :
   quiescent s = true -> cst co = AWait ->
   exists a o, capt co = Some a /\ In o (aobjs a) /\ ocomplete (objs s) o = false.
-Proof.
-  intros Hq Hs. destruct never_lost as [L _]. destruct (L Hs) as (a & o & ob & Ha & Hin & Ho & Hw).
+Proof. reach_setup Hrun Hco.
+  intros Hq Hs. destruct (never_lost os cs nx tr s Hrun c co Hco) as [L _]. destruct (L Hs) as (a & o & ob & Ha & Hin & Ho & Hw).
   exists a, o. split; auto. split; auto. unfold ocomplete, complete. rewrite Ho.
   destruct (ow ob) eqn:Eow; auto. exfalso.
   unfold quiescent in Hq. apply andb_true_iff in Hq. destruct Hq as [Hq _]. apply andb_true_iff in Hq. destruct Hq as [_ Hq].
@@ -70,18 +65,18 @@ Proof.
 Qed.
 
 (* the awaited value; the coroutine's own Result *)
-Lemma outcome_value :
+Lemma outcome_value os cs nx tr s (Hrun : run (init os cs nx) tr = Some s) c co (Hco : nth_error (cos s) c = Some co) :
   forall r a, In r (resumes co) -> nth_error (prog co) (rk r) = Some a ->
     match aconsume a with
     | Some (o, _) => exists ob v, nth_error (objs s) o = Some ob /\ oslot ob = Some v /\ rval r = Some (Some v)
     | None => rval r = None
     end.
-Proof.
+Proof. reach_setup Hrun Hco.
   destruct K as (_ & _ & _ & _ & (_ & E2 & _) & _). intros r a Hi Ha.
   rewrite Forall_forall in E2. destruct (E2 r Hi) as (_ & _ & R3). destruct (R3 a Ha) as (_ & _ & A3). exact A3.
 Qed.
 
-Lemma outcome_own :
+Lemma outcome_own os cs nx tr s (Hrun : run (init os cs nx) tr = Some s) c co (Hco : nth_error (cos s) c = Some co) :
   (cend co = Running <-> (cst co <> AFinal /\ cst co <> ADone)) /\
   (cend co <> Running ->
      exists ob, nth_error (objs s) (own co) = Some ob /\
@@ -91,7 +86,7 @@ Lemma outcome_own :
      exists l r a o, resumes co = l ++ [r] /\ rval r = Some (Some e) /\ (e = RStop \/ exists n, e = RErr n) /\
                      nth_error (prog co) (rk r) = Some a /\ aconsume a = Some (o, false)) /\
   (cst co = ADone -> exists ob, nth_error (objs s) (own co) = Some ob /\ ow ob = WRes).
-Proof.
+Proof. reach_setup Hrun Hco.
   destruct K as (_ & _ & _ & _ & _ & _ & (H1 & H2 & H3 & H4) & _). split; [|split; [|split; [|split]]].
   - rewrite H1. destruct (cst co); simpl; split; intros; try discriminate; try tauto; split; discriminate.
   - intros N. destruct (H2 N) as (ob & A1 & A2 & A3). exists ob. split; auto. rewrite A3.
@@ -105,32 +100,32 @@ Proof.
 Qed.
 
 (* Await(fs...) / AwaitSticky / AwaitOn leave every future ready: word kResult, Result constructed *)
-Lemma await_leaves_ready :
+Lemma await_leaves_ready os cs nx tr s (Hrun : run (init os cs nx) tr = Some s) c co (Hco : nth_error (cos s) c = Some co) :
   forall r a, In r (resumes co) -> nth_error (prog co) (rk r) = Some a ->
   forall o, In o (aobjs a) ->
     exists ob v, nth_error (objs s) o = Some ob /\ ow ob = WRes /\ oslot ob = Some v.
-Proof.
-  intros r a Hi Ha o Ho. destruct resume_once_after as (_ & _ & R). specialize (R r a Hi Ha o Ho).
-  unfold ocomplete in R. destruct (nth_error (objs s) o) as [ob|]; try discriminate.
-  unfold complete in R. destruct (ow ob); try discriminate. destruct (oslot ob) eqn:E; try discriminate. eauto.
+Proof. reach_setup Hrun Hco.
+  intros r a Hi Ha o Ho. destruct (resume_once_after os cs nx tr s Hrun c co Hco) as (_ & _ & R). specialize (R r a Hi Ha o Ho).
+  unfold ocomplete in R. destruct (nth_error (objs s) o) as [ob|] eqn:E0; try discriminate.
+  unfold complete in R. destruct (ow ob) eqn:E1; try discriminate. destruct (oslot ob) eqn:E2; try discriminate. eauto.
 Qed.
 
 (* where *)
-Lemma where_resumed :
+Lemma where_resumed os cs nx tr s (Hrun : run (init os cs nx) tr = Some s) c co (Hco : nth_error (cos s) c = Some co) :
   forall r a, In r (resumes co) -> nth_error (prog co) (rk r) = Some a ->
     where_ok (objs s) a (rhow r) (rthr r) (rexec r) (rown r).
-Proof.
+Proof. reach_setup Hrun Hco.
   destruct K as (_ & _ & _ & _ & (_ & E2 & _) & _). intros r a Hi Ha.
   rewrite Forall_forall in E2. destruct (E2 r Hi) as (_ & _ & R3). destruct (R3 a Ha) as (_ & A2 & _). exact A2.
 Qed.
 
 (* dropped *)
-Lemma dropped_completed :
+Lemma dropped_completed os cs nx tr s (Hrun : run (init os cs nx) tr = Some s) c co (Hco : nth_error (cos s) c = Some co) :
   cend co = Dropped ->
   (cst co = AFinal \/ cst co = ADone) /\
   exists ob, nth_error (objs s) (own co) = Some ob /\ oprod ob = Some c /\ oslot ob = Some RStop /\
              (cst co = ADone -> ow ob = WRes) /\ (cst co = AFinal -> exists l, ow ob = WStack l).
-Proof.
+Proof. reach_setup Hrun Hco.
   intros E. destruct K as (_ & _ & _ & _ & _ & _ & (H1 & H2 & H3 & _) & _).
   assert (N : cend co <> Running) by congruence. split.
   - destruct (cst co) eqn:Hs; auto; exfalso; apply N; apply H1; reflexivity.
@@ -139,10 +134,10 @@ Proof.
     + intros Hs. specialize (H3 ob A1 A2). rewrite Hs in H3. destruct (ow ob); eauto. discriminate.
 Qed.
 
-Lemma frame_once :
+Lemma frame_once os cs nx tr s (Hrun : run (init os cs nx) tr = Some s) c co (Hco : nth_error (cos s) c = Some co) :
   ldtors co <= 1 /\ ffrees co <= 1 /\ (llive co = true <-> ldtors co = 0) /\ (fowner co = true <-> ffrees co = 0) /\
   (fowner co = false -> ffrees co = 1 /\ ldtors co = 1 /\ llive co = false /\ cst co = ADone).
-Proof.
+Proof. reach_setup Hrun Hco.
   destruct K as (_ & _ & _ & _ & _ & (F1 & F2) & _).
   assert (Hd : is_done (cst co) = true -> cst co = ADone). { destruct (cst co); simpl; auto; discriminate. }
   destruct F1 as [[A1 A2]|[A1 A2]]; destruct F2 as [[B1 B2]|(B1 & B2 & B3 & B4)];
@@ -150,17 +145,16 @@ Proof.
 Qed.
 
 (* the drop's final exchange is enabled: the coroutine does get completed *)
-Lemma dropped_progress :
+Lemma dropped_progress os cs nx tr s (Hrun : run (init os cs nx) tr = Some s) c co (Hco : nth_error (cos s) c = Some co) :
   cend co = Dropped -> cst co = AFinal -> exists s', step s (EXchg (on co) (own co)) = Some s'.
-Proof.
-  intros E Hs. destruct (dropped_completed E) as (_ & ob & A1 & A2 & A3 & _ & A5). destruct (A5 Hs) as (l & Eow).
+Proof. reach_setup Hrun Hco.
+  intros E Hs. destruct (dropped_completed os cs nx tr s Hrun c co Hco E) as (_ & ob & A1 & A2 & A3 & _ & A5). destruct (A5 Hs) as (l & Eow).
   unfold step. simpl. unfold step_xchg. rewrite A1, Eow, A2, Hco, Hs, !Nat.eqb_refl. unfold dropped. rewrite E. simpl. eauto.
 Qed.
 
-Lemma await_ready_sound : Forall (fun p => fst p = true -> snd p = true) (readys co).
-Proof. destruct K as (_ & _ & _ & _ & (_ & _ & E3) & _). exact E3. Qed.
+Lemma await_ready_sound os cs nx tr s (Hrun : run (init os cs nx) tr = Some s) c co (Hco : nth_error (cos s) c = Some co) : Forall (fun p => fst p = true -> snd p = true) (readys co).
+Proof. reach_setup Hrun Hco. destruct K as (_ & _ & _ & _ & (_ & _ & E3) & _). exact E3. Qed.
 
-End Reach.
 
 (* an executor dropping a queued coroutine marks it dropped, at once *)
 Lemma drop_drops s t x c s' :
@@ -172,5 +166,3 @@ Proof.
   simpl in H1. erewrite nth_error_upd_eq in H1 by eauto. inversion H1; subst co1.
   eexists. split. simpl. eapply nth_error_upd_eq; eauto. split; reflexivity.
 Qed.
-
-End Reach.
